@@ -214,8 +214,12 @@ class Type1Tag(Tag):
             offset = self._ndef_tlv_offset
             tag_memory_size = (tag_memory[10] + 1) * 8
 
-            # Set the ndef message tlv length to 0.
+            # Set the ndef message tlv length to 0. A three byte length
+            # field may straddle two blocks, zero the length bytes too
+            # so that the 0xFF marker never pairs with a stale length.
             tag_memory[offset+1] = 0
+            if len(data) >= 255:
+                tag_memory[offset+2:offset+4] = b"\0\0"
             tag_memory.synchronize()
 
             # Leave room for ndef message length byte(s) and write
@@ -242,8 +246,13 @@ class Type1Tag(Tag):
             if len(data) < 255:
                 tag_memory[offset+1] = len(data)
             else:
+                # The low length byte must be on the tag before a block
+                # with the 0xFF marker and the high length byte is.
+                tag_memory[offset+3] = len(data) & 0xFF
+                if (offset + 2) // 8 != (offset + 3) // 8:
+                    tag_memory.synchronize()
                 tag_memory[offset+1] = 0xFF
-                tag_memory[offset+2:offset+4] = pack(">H", len(data))
+                tag_memory[offset+2] = len(data) >> 8
             tag_memory.synchronize()
 
     #
